@@ -3,6 +3,8 @@ CONSTANTS
   LUnits = {"nm", "Bohr"}
   Routines = {"convert", "build", "noop"}
   Raising = {"convert", "set_rwa", "noop"}
+  MaxPool = 1
+  BackupAt = "enter"
   MaxCtx = 3
   MaxSteps = 16
 SPECIFICATION Spec
